@@ -83,7 +83,18 @@ def _run_job(arg):
     except Inconclusive as e:
         r = {'status': 'inconclusive', 'reason': str(e)}
     except M.ConcretePanic as e:
-        r = {'status': 'inconclusive', 'reason': 'unexpected concrete panic in engine run: %s' % e}
+        # a panic reached with an empty path condition: the code panics for every value of the symbolic inputs of this run.
+        # The job may know how to replay that natively (-> confirmed violation); otherwise it is inconclusive.
+        r = None
+        h = getattr(fn, 'on_concrete_panic', None)
+        if h is not None:
+            try:
+                r = h(job, e, worker_extra())
+            except Exception as e2:
+                r = {'status': 'inconclusive', 'reason': 'concrete panic in engine run (%s); native replay failed: %s' % (e, e2)}
+        if r is None:
+            r = {'status': 'inconclusive', 'reason': 'unexpected concrete panic in engine run: %s' % e}
+        r.setdefault('status', 'ok')
     except Exception as e:       # engine fault: never report as held
         r = {'status': 'inconclusive', 'reason': 'engine fault: %s\n%s' % (e, traceback.format_exc()[-1500:])}
     r['job'] = repr(job) if len(repr(job)) < 160 else repr(job)[:157] + '...'
